@@ -197,6 +197,12 @@ theorem lockset_batcher_pairs (a b : Gen.Access.Acc)
     (b.fn ∈ a.ord ∨ a.fn ∈ b.ord) :=
   Lockset.safePair_cases ((Lockset.raceFree_iff _ _).mp lockset_ok.1 a ha b hb hc)
 
+/-- Non-vacuity of `lockset_batcher_pairs`: the table does contain conflicting pairs of referent accesses made
+    by different functions (the append in `startFileReading` against the `strings.Join` in `StatusString`). -/
+example : ((Lockset.shared Gen.Access.batcherCtors Gen.Access.batcher).any fun a =>
+    (Lockset.shared Gen.Access.batcherCtors Gen.Access.batcher).any fun b =>
+      Lockset.conflict a b && a.fn != b.fn && a.obj == "ref") = true := by decide +kernel
+
 /-- The monitor behind `outputMutex`: in `RunAggregationLoop` every call into the aggregator / the render
     callback (referent region `aggstate`) holds `outputMutex` exclusively, or is made by the body after the
     hand-shake that ended the ticker goroutine `go1`. -/
